@@ -779,7 +779,18 @@ async fn good_client(addr: std::net::SocketAddr, tls: bool, dict: Arc<Dictionary
         for k in 0..burst {
             out.extend_from_slice(&request(&dict, &format!("c{}-r{}", id, j + k), (id * 1000 + j + k) as u32));
         }
-        if c.write_all(&out).await.is_err() {
+        if id % 2 == 1 && out.len() > 30 {
+            // every other well-behaved client sends its requests in three TCP segments, a few milliseconds apart (a slow path, a
+            // peer that writes header and body separately): a request is a request however it is cut
+            let (a, b) = (out.len() / 3, 2 * out.len() / 3);
+            for part in [&out[..a], &out[a..b], &out[b..]] {
+                if c.write_all(part).await.is_err() {
+                    return format!("writefailed@{}", j);
+                }
+                if let Conn::Plain(s) = &c { let _ = s.set_nodelay(true); }
+                tokio::time::sleep(Duration::from_millis(6)).await;
+            }
+        } else if c.write_all(&out).await.is_err() {
             return format!("writefailed@{}", j);
         }
         for k in 0..burst {
@@ -861,6 +872,12 @@ async fn faulty_peer(addr: std::net::SocketAddr, tls: bool, dict: Arc<Dictionary
                     let _ = c.write_all(&[1, 0, 0, 28, 0x80, 0, 1, 16, 0, 0, 0, 4, 0, 0, 0, 1, 0, 0, 0, 1, 0, 0, 1, 7, 0x40, 0, 0, 4]).await;
                 }
                 tokio::time::sleep(hold).await;
+            }
+        }
+        // one peer that connects and resets 66 000 times in a row (a monitoring probe gone wild, a client in a crash loop)
+        "reset-storm" => {
+            for _ in 0..66_000u32 {
+                if let Ok(s) = raw().await { let _ = s.set_linger(Some(Duration::from_secs(0))); drop(s); }
             }
         }
         // the first octets of a TLS ClientHello record, then the peer hangs up (a port scanner, a client that crashed): the stream ends
@@ -1006,7 +1023,7 @@ pub fn scenario(st: &State, t: &mut Toks) -> PResult<String> {
         tokio::time::sleep(Duration::from_millis(seed % 20)).await;
         let hold = Duration::from_secs(30);
         let mut fh = Vec::new();
-        let flood = faults.iter().any(|f| f == "flood-no-read");
+        let flood = faults.iter().any(|f| f == "flood-no-read" || f == "reset-storm");
         let slow_fault = faults.iter().any(|f| f == "vanish-before-answer" || f == "announce-leave" || f == "reset-same-port" || f == "unread-then-malformed" || f == "flood-no-read");
         for f in faults {
             fh.push(tokio::spawn(faulty_peer(addr, tls, Arc::clone(&dict), f, hold)));
@@ -1071,7 +1088,11 @@ pub fn aged(st: &State, t: &mut Toks) -> PResult<String> {
         tokio::time::sleep(Duration::from_millis(5300)).await;
         let d2 = Arc::clone(&dict);
         let stalled = tokio::spawn(faulty_peer(addr, tls, d2, "stall-midframe".into(), Duration::from_secs(30)));
-        tokio::time::sleep(Duration::from_millis(150)).await;
+        // ... and a peer that connects and says nothing (with TLS: never starts its handshake) stays for the rest of the scenario, while
+        // the idle connections grow older than ten seconds
+        let d4 = Arc::clone(&dict);
+        let silent = tokio::spawn(faulty_peer(addr, tls, d4, "stall-setup".into(), Duration::from_secs(30)));
+        tokio::time::sleep(Duration::from_millis(5400)).await;
         let mut fresh = Conn::open(addr, tls).await?;
         let r = ask(&mut fresh, &dict, "aged-new", 200).await;
         let _ = write!(o, " new={}", r);
@@ -1081,6 +1102,7 @@ pub fn aged(st: &State, t: &mut Toks) -> PResult<String> {
             let _ = write!(o, " second{}={}", i, r);
         }
         stalled.abort();
+        silent.abort();
         Ok::<String, String>(o)
     });
     rt.shutdown_timeout(Duration::from_millis(200));
